@@ -88,6 +88,7 @@ static int run_case(const json &c, long &nlines, std::string &note) {
 	// false statements: edit the output stack after the fact (the prover keeps its witness)
 	if (stmt == "subst" || stmt == "retype") { VTMF_Card cd, m; VTMF_CardSecret cs; tm.TMCG_CreateOpenCard(cd, vtmf, 15 - (rnd(n) % 8)); tm.TMCG_CreateCardSecret(cs, vtmf); tm.TMCG_MaskCard(cd, m, cs, vtmf);
 		TMCG_Stack<VTMF_Card> t; size_t k = rnd(n); for (size_t i = 0; i < n; i++) t.push(i == k ? m : I.s2[i]); I.s2 = t; }
+	if (stmt == "c1only" || stmt == "c2only") { size_t k = rnd(n); mpz_ptr x = (stmt == "c1only") ? I.s2[k].c_1 : I.s2[k].c_2; mpz_mul(x, x, vtmf->g); mpz_mod(x, x, vtmf->p); }
 	if (stmt == "dup") { TMCG_Stack<VTMF_Card> t; size_t k = rnd(n), k2 = (k + 1) % n; for (size_t i = 0; i < n; i++) t.push(i == k ? I.s2[k2] : I.s2[i]); I.s2 = t; }
 	GrothVSSHE *vsshe = NULL, *vsshe_v = NULL; HooghSchoenmakersSkoricVillegasVRHE *vrhe = NULL, *vrhe_v = NULL;
 	unsigned long le = c.value("le", (unsigned long)TMCG_GROTH_L_E);      // challenge length of the Groth argument
